@@ -93,6 +93,7 @@ func main() {
 							if err == nil && !sig.Verify(d[:], lastKey) {
 								mu.Lock()
 								h.FailWith("C14:bad-signature-under-concurrency", "a signature produced under concurrent load does not verify", nil)
+								h.FailWith("C05:signature-does-not-verify-concurrent", "SignHash returned, without error, a signature that does not verify under the requested key while other goroutines locked/unlocked the wallet", nil)
 								mu.Unlock()
 							}
 						}
@@ -121,6 +122,41 @@ func main() {
 			}(w)
 		}
 		wg.Wait()
+		// signers against a goroutine that locks and unlocks the wallet: every signature that comes back without an
+		// error must verify under the requested key (C05), whatever the interleaving
+		if pk, _, err := kmc.GenerateNewPublicKey(); err == nil {
+			kmc.Unlock(priv)
+			stop := make(chan struct{})
+			var sw sync.WaitGroup
+			for g := 0; g < 3; g++ {
+				sw.Add(1)
+				go func(g int) {
+					defer sw.Done()
+					for i := 0; ; i++ {
+						select {
+						case <-stop:
+							return
+						default:
+						}
+						d := sha256.Sum256([]byte{byte(g), byte(i), byte(i >> 8)})
+						sig, err := kmc.SignHash(pk, d[:])
+						if err == nil && !sig.Verify(d[:], pk) {
+							mu.Lock()
+							h.FailWith("C05:signature-does-not-verify-concurrent", "SignHash returned, without error, a signature that does not verify under the requested key while another goroutine locked/unlocked the wallet", nil)
+							h.FailWith("C14:bad-signature-under-concurrency", "a signature produced under concurrent lock/unlock does not verify", nil)
+							mu.Unlock()
+							return
+						}
+					}
+				}(g)
+			}
+			for i := 0; i < 60; i++ {
+				kmc.Lock()
+				kmc.Unlock(priv)
+			}
+			close(stop)
+			sw.Wait()
+		}
 		// oracles: ordinals unique per key, keys unique, reopened state equals the running one
 		h.Res.OracleEvals++
 		seen := map[string]bool{}
